@@ -445,12 +445,20 @@ where
     /// If our contents begin with the char c, consume it from our contents
     /// and return true. Otherwise return false.
     fn try_consume<C: Into<u32>>(&mut self, c: C) -> bool {
+        #[cfg(feature = "verif-hooks")]
+        if crate::verif::tick() {
+            return false;
+        }
         self.input.next_if_eq(&c.into()).is_some()
     }
 
     /// If our contents begin with the string \p s, consume it from our contents
     /// and return true. Otherwise return false.
     fn try_consume_str(&mut self, s: &str) -> bool {
+        #[cfg(feature = "verif-hooks")]
+        if crate::verif::tick() {
+            return false;
+        }
         let mut cursor = self.input.clone();
         for c1 in s.chars() {
             if cursor.next() != Some(c1 as u32) {
@@ -476,11 +484,20 @@ where
 
     /// Peek at the next character.
     fn peek(&mut self) -> Option<u32> {
+        // With the step budget exhausted the parser sees end of input, so every loop over it ends.
+        #[cfg(feature = "verif-hooks")]
+        if crate::verif::tick() {
+            return None;
+        }
         self.input.peek().copied()
     }
 
     /// \return the next character.
     fn next(&mut self) -> Option<u32> {
+        #[cfg(feature = "verif-hooks")]
+        if crate::verif::tick() {
+            return None;
+        }
         self.input.next()
     }
 
